@@ -153,6 +153,13 @@ func c15Ctr(id string, seed int) *api.Container {
 	return c
 }
 
+func cloneRes(r *api.LinuxResources) *api.LinuxResources {
+	if r == nil {
+		return nil
+	}
+	return proto.Clone(r).(*api.LinuxResources)
+}
+
 func c15Res(seed int) *api.LinuxResources {
 	r := &api.LinuxResources{Memory: &api.LinuxMemory{Limit: api.Int64(int64(seed))}, Cpu: &api.LinuxCPU{Shares: api.UInt64(uint64(seed % 1024)), Cpus: "0-1"}}
 	if seed%2 == 0 {
@@ -200,6 +207,7 @@ type c15Sent struct {
 	Pod   *api.PodSandbox
 	Ctr   *api.Container
 	Res   *api.LinuxResources
+	Over  *api.LinuxResources
 	Reply proto.Message
 	Err   error
 	Done  bool
@@ -379,6 +387,9 @@ func c15Run(t *testing.T, wl any, sc SchedCfg) *Result {
 				if name == "UpdateContainer" || name == "UpdatePodSandbox" {
 					s.Res = c15Res(m.Seed + 1)
 				}
+				if name == "UpdatePodSandbox" && m.Seed%3 != 0 {
+					s.Over = c15Res(m.Seed + 2)
+				}
 				byID[id] = s
 				mine[k] = s
 				sent = append(sent, s)
@@ -400,7 +411,7 @@ func c15Run(t *testing.T, wl any, sc SchedCfg) *Result {
 					case "StopContainer":
 						s.Reply, s.Err = end.PC.StopContainer(ctx, &api.StopContainerRequest{Pod: pod, Container: ctr})
 					case "UpdatePodSandbox":
-						s.Reply, s.Err = end.PC.UpdatePodSandbox(ctx, &api.UpdatePodSandboxRequest{Pod: pod, LinuxResources: proto.Clone(s.Res).(*api.LinuxResources)})
+						s.Reply, s.Err = end.PC.UpdatePodSandbox(ctx, &api.UpdatePodSandboxRequest{Pod: pod, LinuxResources: proto.Clone(s.Res).(*api.LinuxResources), OverheadLinuxResources: cloneRes(s.Over)})
 					default:
 						ev := api.Event(api.Event_value[eventEnumName(name)])
 						s.Reply, s.Err = end.PC.StateChange(ctx, &api.StateChangeEvent{Event: ev, Pod: pod, Container: ctr})
@@ -453,6 +464,9 @@ func c15Run(t *testing.T, wl any, sc SchedCfg) *Result {
 			}
 			if s.Res != nil && !proto.Equal(c.Res, s.Res) {
 				res.Violate("C15.payload", "%s message %s: handler received resources %v, sent %v", name, s.ID, c.Res, s.Res)
+			}
+			if name == "UpdatePodSandbox" && !proto.Equal(c.Over, s.Over) {
+				res.Violate("C15.payload", "%s message %s: handler received overhead resources %v, sent %v", name, s.ID, c.Over, s.Over)
 			}
 			want := c15Result(s.Msg.Handler, s.ID, s.Msg.Seed, s.Msg.Err)
 			if s.Msg.Err {
